@@ -1,11 +1,12 @@
 """C14 -- strutils encoders (structural clauses)."""
 import ast
+import re
 import re._parser as sre_parse
 import re._constants as sre_c
 from sa.index import AnalysisError
 from sa.paths import call_name
 from sa.consteval import Folder, Unknown
-from rules.common import txt, module_regex, paths_of, loc, tests_on, check_none_default, Quiet
+from rules.common import is_regex_method_name, txt, module_regex, paths_of, loc, tests_on, check_none_default, Quiet
 
 SHLEX_SAFE = set('abcdefghijklmnopqrstuvwxyzABCDEFGHIJKLMNOPQRSTUVWXYZ0123456789_@%+=:,./-')
 
@@ -60,8 +61,7 @@ def run(ctx):
         out = []
         for n in ast.walk(fn.node):
             if isinstance(n, ast.Call) and isinstance(n.func, ast.Name) and n.func.id in mod.assigns:
-                e = mod.const_expr(n.func.id)
-                if isinstance(e, ast.Attribute) and isinstance(e.value, ast.Call) and call_name(e.value) == 're.compile':
+                if is_regex_method_name(prog, 'strutils', n.func.id):
                     out.append(n.func.id)
         return out
     # the emitter: args2sh itself, or the module-level helper it maps over its arguments
@@ -172,24 +172,40 @@ def run(ctx):
     ctx.ob('T13.sh', emitter.fq, 'all three emission forms exist (raw, empty, quoted)', n_raw > 0 and n_q > 0 and n_e > 0, loc=emitter.loc)
     # dispatch
     e = prog.func('strutils.escape_shell_args')
-    body = ast.unparse(e.node)
-    ok = False
+    we, epaths = paths_of(prog, e)
+    want = {'sh': 'args2sh', 'cmd': 'args2cmd'}
     pairs = {}
-    for n in ast.walk(e.node):
-        if isinstance(n, ast.If) and isinstance(n.test, ast.Compare) and txt(n.test.left) == 'style' and \
-                isinstance(n.test.comparators[0], ast.Constant):
-            r = [x for x in n.body if isinstance(x, ast.Return)]
-            if r and isinstance(r[0].value, ast.Call):
-                pairs[n.test.comparators[0].value] = call_name(r[0].value)
-    raises = any(isinstance(n, ast.Raise) and 'ValueError' in txt(n.exc) for n in e.node.body)
-    ctx.ob('T17.dispatch', e.fq, "style 'sh' -> args2sh, 'cmd' -> args2cmd, anything else -> ValueError",
-           pairs == {'sh': 'args2sh', 'cmd': 'args2cmd'} and raises, loc=e.loc, detail=str(pairs))
+    bad_paths = []
+    other_raises = other_returns = 0
+    for pth in epaths:
+        sel = None
+        for o in pth.ops:
+            # source-level test on the (possibly platform-defaulted) style variable
+            if o.kind == 'test' and o.info is True:
+                m = re.fullmatch(r"style == '(\w+)'", txt(o.node))
+                if m:
+                    sel = m.group(1)
+        if pth.kind == 'return':
+            rv = we.expand(pth.outcome[1]) if pth.outcome[1] is not None else None
+            callee = call_name(rv) if isinstance(rv, ast.Call) else None
+            if sel is None:
+                other_returns += 1
+                bad_paths.append('returns %s with no style selected' % txt(rv))
+            else:
+                pairs.setdefault(sel, set()).add(callee)
+        elif pth.kind == 'raise' and sel is None:
+            other_raises += 1
+            if 'ValueError' not in str(pth.outcome[1]):
+                bad_paths.append('unselected style raises %s' % (pth.outcome[1],))
+    ok = all(pairs.get(k) == {v} for k, v in want.items()) and set(pairs) == set(want) and other_raises > 0 and not bad_paths
+    ctx.ob('T17.dispatch', e.fq, "style 'sh' -> args2sh, 'cmd' -> args2cmd, anything else -> ValueError (on every path)",
+           ok, loc=e.loc, detail='%s %s' % ({k: sorted(map(str, v)) for k, v in pairs.items()}, bad_paths[:2]))
     # args2cmd: backslash doubling (roles discovered: char loop variable, backslash buffer, output list)
     c = prog.func('strutils.args2cmd')
     BUF = OUT = CH = None
     for n in ast.walk(c.node):
         if isinstance(n, ast.If) and isinstance(n.test, ast.Compare) and isinstance(n.test.left, ast.Name) and \
-                isinstance(n.test.comparators[0], ast.Constant) and n.test.comparators[0].value == '\\':
+                len(n.test.ops) == 1 and isinstance(n.test.ops[0], ast.Eq) and cval(n.test.comparators[0]) == '\\':
             for st in n.body:
                 for x in ast.walk(st):
                     if isinstance(x, ast.Call) and isinstance(x.func, ast.Attribute) and x.func.attr == 'append' and x.args \
@@ -202,6 +218,29 @@ def run(ctx):
     if not (BUF and OUT and CH):
         raise AnalysisError('anchor vanished: args2cmd backslash buffer / output list / char loop (%s, %s, %s)' % (BUF, OUT, CH))
 
+    # quoting decision: the truth table of the `needquote` expression over probe arguments equals "empty, or contains a
+    # blank or a tab" (the MS C runtime splits exactly at unquoted blanks and tabs; leading/trailing ones included)
+    nq = [n for n in ast.walk(c.node) if isinstance(n, ast.Assign) and len(n.targets) == 1 and isinstance(n.targets[0], ast.Name)
+          and any(isinstance(i, ast.If) and txt(i.test) == n.targets[0].id for i in ast.walk(c.node))
+          and isinstance(n.value, (ast.BoolOp, ast.Compare, ast.UnaryOp, ast.Call)) and n.lineno > c.node.lineno]
+    arg_loop_vars = [txt(n.target) for n in ast.walk(c.node) if isinstance(n, ast.For) and txt(n.target) != CH]
+    if not nq or not arg_loop_vars:
+        ctx.unknown('T7.needquote', c.fq, 'no quoting decision (`flag = <expr>` tested by `if flag:`) found', c.loc)
+    for n in nq:
+        PROBES = ['', 'a', ' ', '\t', ' a', 'a ', 'a b', 'a\tb', '\ta', 'a\t', '  ', 'ab', '"', 'a"b', '\\', 'a\nb', '\n']
+        wrong = []
+        for s_ in PROBES:
+            try:
+                got = bool(folder0.fold(n.value, env={arg_loop_vars[0]: s_}))
+            except Unknown as ex:
+                raise AnalysisError('cannot fold the quoting decision `%s`: %s' % (txt(n.value), ex))
+            want = (s_ == '') or (' ' in s_) or ('\t' in s_)
+            if got != want:
+                wrong.append((s_, got))
+        ctx.ob('T7.needquote', c.fq, 'an argument is quoted exactly when it is empty or contains a blank or a tab (decided on the '
+               'expression `%s` over %d probe strings)' % (txt(n.value), len(PROBES)), not wrong, loc=loc(c, n),
+               detail='disagrees on %r' % wrong[:4] if wrong else '')
+
     # the backslash buffer is per argument: it is (re)initialised inside the loop over the arguments
     arg_loops = [n for n in ast.walk(c.node) if isinstance(n, ast.For) and txt(n.target) != CH and
                  any(isinstance(x, ast.For) and txt(x.target) == CH for x in ast.walk(n))]
@@ -211,6 +250,25 @@ def run(ctx):
               and isinstance(st.value, (ast.List, ast.Call))]
     ctx.ob('T18.buf', c.fq, 'the pending-backslash buffer `%s` starts empty for every argument (reset inside the loop over the arguments)'
            % BUF, bool(resets), loc=loc(c, arg_loops[0]))
+
+    def is_doubled(e, any_len=False):
+        """e is  <backslash> * len(BUF) * 2  in any association / order of the three factors"""
+        factors = []
+
+        def flat(x):
+            if isinstance(x, ast.BinOp) and isinstance(x.op, ast.Mult):
+                flat(x.left)
+                flat(x.right)
+            else:
+                factors.append(x)
+        flat(e)
+        if len(factors) != 3:
+            return False
+        kinds = sorted('bs' if cval(f) == '\\' else 'two' if cval(f) == 2 else
+                       'len' if (isinstance(f, ast.Call) and call_name(f) == 'len' and len(f.args) == 1 and
+                                 (txt(f.args[0]) == BUF or any_len)) else '?'
+                       for f in factors)
+        return kinds == ['bs', 'len', 'two']
 
     class OneArg(Quiet):
         def unroll(self, stmt):
@@ -234,7 +292,8 @@ def run(ctx):
                 n_close += 1
                 seg = [x for x in ops if loop_end < x.seq < o.seq]
                 exts = [x for x in seg if x in outs and x.node.func.attr == 'extend' and txt(x.node.args[0]) == BUF]
-                mult = [x for x in seg if x in outs and x.node.func.attr == 'append' and 'len(%s)' % BUF in txt(x.node) and '2' in txt(x.node)]
+                mult = [x for x in seg if x in outs and x.node.func.attr == 'append' and
+                        (is_doubled(x.node.args[0]) or is_doubled(w.expand(x.val.args[0]), any_len=True))]
                 empty = any(x.kind == 'test' and txt(x.node) == BUF and x.info is False for x in seg)
                 # the buffer may be extended once under `if BUF:` and once unconditionally, or doubled by multiplication
                 ok = len(exts) >= 2 or bool(mult) or (empty and len(exts) >= 1)
@@ -244,7 +303,7 @@ def run(ctx):
                 n_quote += 1
                 prev = [x for x in outs if x.seq < o.seq][-1:]
                 pe = txt(w.expand(prev[0].val.args[0])) if prev else ''
-                ok = bool(prev) and 'len(' in pe and '2' in pe and "'\\\\'" in pe
+                ok = bool(prev) and (is_doubled(prev[0].node.args[0]) or is_doubled(w.expand(prev[0].val.args[0]), any_len=True))
                 ctx.ob('T9.cmd', c.fq, 'an embedded quote is preceded by twice the pending backslashes and escaped', ok,
                        loc=loc(c, o.node), detail=pe)
     if n_close == 0 or n_quote == 0:
@@ -283,5 +342,18 @@ def run(ctx):
         ok = ok and txt(dec[0].args[0]) == gu.params[0]
     ctx.ob('T12.gzip', gu.fq, 'reader: zlib.decompress with window bits selecting the gzip (or auto) container', ok, loc=gu.loc, detail=det)
     check_none_default(ctx, prog.func('strutils.complement_int_list'), 'range_end')
+    cil = prog.func('strutils.complement_int_list')
+    wc, cpaths = paths_of(prog, cil)
+    n_r = 0
+    for pth in cpaths:
+        if pth.kind != 'return':
+            continue
+        n_r += 1
+        rv = wc.expand(pth.outcome[1]) if pth.outcome[1] is not None else None
+        ok = isinstance(rv, ast.Call) and call_name(rv) == 'format_int_list'
+        ctx.ob('T17.compl', cil.fq, 'every result is format_int_list(<computed complement>): no input short-cuts the window arithmetic',
+               ok, loc=cil.loc, detail='returns %s' % txt(rv)[:80], path=pth.describe() if not ok else None)
+    if n_r == 0:
+        ctx.unknown('T17.compl', cil.fq, 'no return path', cil.loc)
     for r, n in (('T12.form', 1), ('T12.shsafe', 60), ('T13.sh', 4), ('T17.dispatch', 1), ('T9.cmd', 2), ('T12.gzip', 2), ('T19c', 1)):
         ctx.need(r, n)
